@@ -342,6 +342,8 @@ TOKENS = ["<", ">", "/>", "</", "<a", "<b", "</a>", "</b>", "<a>", "<b>", "<a/>"
 SLOTS = ["<a>%s</a>", "<a b=\"%s\"/>", "<a b='%s'/>", "<a %s/>", "<a%s>t</a>", "%s<a/>", "<a/>%s", "<a>x%sy</a>", "<a><b>%s</b>%s</a>",
          "<a xmlns:p=\"u\" xmlns=\"d\">%s</a>", "<a xmlns:p=\"%s\"><p:b/></a>", "<a xmlns=\"%s\"><b/></a>", "<p:a xmlns:p=\"u\" %s>%s</p:a>",
          "<a><![CDATA[%s]]></a>", "<a><!--%s--></a>", "<a><?p %s?></a>", "<?xml version=\"1.0\"%s?><a/>", "<a>%s<![CDATA[%s]]>%s</a>", "<a></a%s>",
+         "<a xmlns=\"u\" xmlns=\"v\">%s<b %s/></a>", "<a xmlns:p=\"u\"><b xmlns:p=\"u\">%s</b><p:c %s/></a>", "<?xml version=\"1.0\"%s",
+         "<?xml version=\"1.0\" %s?><a/>", "<a>&#%s;&#x%s;</a>", "<a b=\"%s\" b=\"%s\"/>", "<a xmlns:p=\"%s\" xmlns:p=\"%s\"/>",
          "<%s/>", "<a><%s/></a>", "<a %s=\"1\"/>", "<a>&%s;</a>", "<a b=\"&%s;\"/>", "<a>&#%s;</a>", "<a>&#x%s;</a>"]
 SLOT_TOKENS = [t for t in TOKENS if not t.startswith("<") or len(t) > 3] + ["\r", "\r\n", "\n", "\r", "&#13;", "&#10;", "&amp;", "x", " ", "1", "F", "fffe", "lt", "amp"]
 
